@@ -45,6 +45,29 @@ def soft_drift(msg):
     raise Drift(msg)
 
 
+def note_drift(msg):
+    """The code moved away from what a hint was written for, but the hint can still be applied: strict assembling
+    raises (the driver then assembles leniently), lenient assembling records the note and goes on."""
+    if LENIENT[0]:
+        SKIPPED.append(msg)
+        return
+    raise Drift(msg)
+
+
+_LOOPS_LOCK = [None]
+LOOPS_SEEN = {}
+
+
+def loops_lock():
+    if _LOOPS_LOCK[0] is None:
+        try:
+            with open(os.path.join(CONTRACTS, 'LOOPS.lock.json')) as f:
+                _LOOPS_LOCK[0] = json.load(f)
+        except Exception:
+            _LOOPS_LOCK[0] = {}
+    return _LOOPS_LOCK[0]
+
+
 class Drift(Exception):
     """Template and source no longer line up (lost item / loop / anchor)."""
 
@@ -770,6 +793,14 @@ def annotate_fn(sf, item, blk, counts, meta, mode, qual_name, extra_ensures=None
         if n > len(loops):
             continue
         lp = loops[n - 1]
+        # the invariants were written for one loop header (`while i + p_len <= s_len`, `for k in 0..n`, `loop`): a loop
+        # of another shape needs other invariants, so a changed header counts as drift (contracts/LOOPS.lock.json)
+        header = re.sub(r'\s+', ' ', body[lp['kw']:lp['brace']]).strip()
+        lkey = '%s#%d' % (qual_name, n)
+        LOOPS_SEEN[lkey] = header
+        want = loops_lock().get(lkey)
+        if want is not None and want != header and not rename:
+            note_drift('%s: loop %d header changed (invariants were written for `%s`, found `%s`)' % (qual_name, n, want, header))
         inv_text = '\n'.join(lines)
         fmeta['n_invariants'] += len([c for c in split_clauses(lines) if c[0] in ('invariant', 'invariant_except_break', 'ensures')])
         inserts.append((lp['brace'], '/*@L%d@*/' % n))
